@@ -151,6 +151,12 @@ def run_case(spec, ctx):
     own_ok = 0
     cond = geo.condition_number(E, penv)
     summary["cond"] = round(cond, 2)
+    try:       # operand boundaries that touch along a shared piece: known finding D21
+        if geo.touching(E, penv, 1e-4 * tol["scale"]):
+            top += "+touching"
+            classes.append("touching")
+    except Exception:      # noqa: BLE001 - classification only
+        pass
     for how in ("random", "grid"):
         if has_product and how == "grid":
             continue
@@ -176,7 +182,8 @@ def run_case(spec, ctx):
         own_ok += int(vals.sum())
         if rej.any():
             i = np.where(rej)[0][0]
-            who = _blame_boundary(E, {kk: v[[i]] for kk, v in e_own.items()}, tol["tol_b"])
+            who = _blame_boundary(E, {kk: v[[i]] for kk, v in e_own.items()}, tol["tol_b"]) + \
+                ("+touching" if top.endswith("+touching") else "")
             ctx.violation("own-sample-rejected", who,
                           f"{rej.sum()} of {rows} own {how} boundary samples rejected by the boundary's "
                           f"_contains, e.g. { {kk: np.round(v[i], 6).tolist() for kk, v in e_own.items()} }")
